@@ -1,13 +1,13 @@
 INIT Init
 NEXT Next
 CONSTANT Mode = "explore"
-CONSTANT MaxTerms = 3
+CONSTANT MaxTerms = 2
 CONSTANT EmitBelow = 2
 CONSTANT ChainLen = 1
 CONSTANT Seeds = {"s1", "s2"}
-CONSTANT Idx <- IdxQuick
-CONSTANT Hid = {"D", "H1"}
-CONSTANT Msg = {"m1"}
+CONSTANT Idx <- IdxTwo
+CONSTANT Hid = {"D", "DX", "H1"}
+CONSTANT Msg = {"m1", "m2"}
 INVARIANT Closed
 INVARIANT Typed
 INVARIANT CommuteDerive
@@ -19,5 +19,6 @@ INVARIANT SignSeparates
 INVARIANT PubInjective
 INVARIANT HardenedFresh
 INVARIANT IndexSeparates
+
 INVARIANT Emit
 CHECK_DEADLOCK FALSE
